@@ -21,12 +21,19 @@ class Machinery(Exception):
     """Harness / specification / tooling problem: exit 2, never a VIOLATION."""
 
 
+ALL_VIOLATIONS: list = []      # every violation constructed in this process, in order (see check.py: a vacuity guard or
+                               # self-test that cannot run because the tree is broken must not hide what was already found)
+
+
 @dataclass
 class Violation:
     key: str          # identifies the failing input class / call site (matched against KNOWN_FINDINGS)
     what: str         # one line: what fails
     driver: str       # name of the driver able to re-run the case
     case: dict        # self-contained payload for the replay
+
+    def __post_init__(self):
+        ALL_VIOLATIONS.append(self)
 
 
 @dataclass
